@@ -1,7 +1,7 @@
 // C14 harness: feeds byte strings to the real mp::ReadSOLFile (nl-writer2) with a recording
 // handler, one forked child per case so that a sanitizer abort / crash / hang is attributed
 // to the case.   usage: h_solread <cases file> <work dir>
-//   case <id> <nVars> <nCons> <optRv> <dualAct> <primalAct> <sufAct> <hex bytes | ->
+//   case <id> <fx (model flag, ignored here)> <nVars> <nCons> <optRv> <dualAct> <primalAct> <sufAct> <hex bytes | ->
 // prints:  <id> code=<Code> msg=<0|1> | <event> ; <event> ...      or   <id> ABORT <class>
 #include <unistd.h>
 #include <sys/wait.h>
@@ -51,8 +51,8 @@ int main(int argc, char** argv) {
   while (std::getline(in, line)) {
     std::istringstream ss(line);
     std::string tag, id, da, pa, sa, hexb;
-    long nv, nc, rv;
-    if (!(ss >> tag >> id >> nv >> nc >> rv >> da >> pa >> sa >> hexb) || tag != "case") { put("bad-op\n"); continue; }
+    long nv, nc, rv, fx;
+    if (!(ss >> tag >> id >> fx >> nv >> nc >> rv >> da >> pa >> sa >> hexb) || tag != "case") { put("bad-op\n"); continue; }
     RecHandler h;
     std::string bytes;
     if (!parseAct(da, h.dual) || !parseAct(pa, h.primal) || !parseAct(sa, h.suf) || !unhex(hexb, bytes)) { put("bad-op\n"); continue; }
